@@ -217,6 +217,8 @@ def run(ck, facts, tier):
                          sample="%s(%s(x, 0))" % (resk, meth))
             except Unsupported as e:
                 ck.fail(r5, key, "rule could not be established (%s)" % e, where)
+    from rules import pywrap
+    pywrap.run_spline_wrappers(ck, facts)
     # the solved spline rests on the solver's structure and on the basis/derivative kernels: their rules are necessary conditions of this property too
     from rules import c13, c14
     nd, tb = list(ck.not_decided), list(ck.trusted)
